@@ -39,6 +39,5 @@ func VpC20AuditFile() {
 	if vp.Faults() > before {
 		vp.Assert(vpErrLogs > 0 || errClose != nil, "the write of the audit record failed and nothing reports it (no error log entry, no returned error)")
 	}
-	vp.Observe("faults", vp.Faults())
 	vp.Reached("end")
 }
